@@ -346,7 +346,14 @@ class Run:
                     c["_needs_diag"] = True
         diag = [c for c in cases if c.get("_needs_diag")]
         if diag:
-            ans3 = run_model(self.model, ["diag %s %s" % (c["fmt"], c["hex"] or "") for c in diag])
+            dreq = []
+            for c in diag:
+                vk, vp = go_class(c["V"]) if c["V"] != "-" else ("none", "")
+                if model_class(c["m_dec"])[0] != "ok" and vk == "ok" and vp.startswith("L[") and in_universe(vp):
+                    dreq.append("diagl %s %s" % (c["fmt"], vp))     # judge the items the codec decoded
+                else:
+                    dreq.append("diag %s %s" % (c["fmt"], c["hex"] or ""))
+            ans3 = run_model(self.model, dreq)
             for c, dg in zip(diag, ans3):
                 sig = defect_signature(c["fmt"], c["hex"] or "", dg)
                 self.report(sig, "Deserialize returns a message for an input that is not a list with a known code and compatible items (%s)" % dg,
